@@ -107,7 +107,7 @@ def run_case(case, cid):
                 mat = case["matrix"]
                 arg = np.array(mat) if case["kind"] == "ndarray" else [list(r) for r in mat]
                 snap = copy.deepcopy(arg)
-                res = utils.matrix_to_qubo(arg)
+                res = pure.twice(lambda: utils.matrix_to_qubo(arg))
                 terms = [((i, j), mat[i][j]) for i in range(len(mat)) for j in range(len(mat)) if mat[i][j]]
                 rterms = pure.items_of(res)
                 nm = pure.Namer([], True)
@@ -144,7 +144,7 @@ def run_case(case, cid):
                 terms = pure.items_of(snap)
                 if case["op"] in ("b2s", "s2b"):
                     _, spin, quad, own, own_out, lab_out = CONV[case["fn"]]
-                    res = getattr(utils, case["fn"])(model)
+                    res = pure.twice(lambda: getattr(utils, case["fn"])(model))
                     rterms = pure.items_of(res)
                     rec["result_spin"] = not spin
                     if case["kind"] == own:
@@ -155,7 +155,7 @@ def run_case(case, cid):
                         rec["expect_type"] = lab_out
                 elif case["op"] == "enum":
                     meth = case["method"]
-                    res = getattr(model, meth)()
+                    res = pure.twice(lambda: getattr(model, meth)())
                     rterms = pure.items_of(res)
                     real = ENUM_OF[case["kind"]] if meth == "to_enumerated" else meth
                     rec["expect_type"], rec["result_spin"] = METHOD_TYPES[real]
@@ -180,16 +180,16 @@ def run_case(case, cid):
                                 tabvals.append((on, v))
                     rec["_tab"] = tabvals
                 elif case["op"] == "Q":
-                    res = model.Q
+                    res = pure.twice(lambda: model.Q)
                     rterms = [(tuple(k), v) for k, v in res.items()]
                     rec["result_spin"] = False
                 elif case["op"] == "hJ":
-                    h, J = model.h, model.J
+                    h, J = pure.twice(lambda: (model.h, model.J))
                     rterms = [((k,), v) for k, v in h.items()] + [(tuple(k), v) for k, v in J.items()]
                     rec["result_spin"] = True
                     res = None
                 elif case["op"] == "q2m":
-                    res = utils.qubo_to_matrix(model, symmetric=case["symmetric"], array=case["array"])
+                    res = pure.twice(lambda: utils.qubo_to_matrix(model, symmetric=case["symmetric"], array=case["array"]))
                     arr = np.array(res)
                     rterms = [((i, j), arr[i][j]) for i in range(arr.shape[0]) for j in range(arr.shape[1]) if arr[i][j]]
                     rec["result_spin"] = False
